@@ -19,7 +19,7 @@
    changes, all other elements and their order stay"). *)
 From Coq Require Import List ZArith Bool Arith Lia.
 From SC Require Import Base.Res Base.PyList Inst.Heap Inst.ClassTable Inst.Model Inst.Canon Inst.Abs
-  Inst.SpecHelpers Inst.ElemProofs Inst.RefineProofs Inst.CopyProofs Inst.ElemRefineDep Inst.ElemRefine Inst.ElemRefine2 Inst.ElemRefine3 Inst.ElemRefine4 Inst.ElemRefine5 Inst.ElemRefine6 Inst.ElemRefine7 Inst.ElemRefine8 Inst.ElemRefine9 Inst.ElemRefine10 Inst.ElemRefine11 Inst.ElemRefine12 Inst.ElemRefine13 Inst.ElemRefine14 Inst.ElemRefineGuard.
+  Inst.SpecHelpers Inst.ElemProofs Inst.RefineProofs Inst.CopyProofs Inst.ElemRefineDep Inst.ElemRefine Inst.ElemRefine2 Inst.ElemRefine3 Inst.ElemRefine4 Inst.ElemRefine5 Inst.ElemRefine6 Inst.ElemRefine7 Inst.ElemRefine8 Inst.ElemRefine9 Inst.ElemRefine10 Inst.ElemRefine11 Inst.ElemRefine12 Inst.ElemRefine13 Inst.ElemRefine14 Inst.ElemRefine15 Inst.ElemRefineGuard.
 Import ListNotations.
 Open Scope nat_scope.
 
@@ -1025,6 +1025,74 @@ Example C06_nested_guard_examples :
    | _ => False end).
 Proof. vm_compute. repeat split. Qed.
 
+(* HISTORIES (Inst/ElemRefine15.v).  "Every container content reachable by prior element
+   operations": the refinement theorems hold for EVERY content, and the side condition is an
+   invariant of the calls they cover -- a successful in-place call rewrites the cell of the
+   container with a container of scalars of the same family and touches no other cell
+   (cell_rewritten), so elem_guard holds again in the state after the call (guard_kept; on an error
+   the heap is untouched, so it holds trivially).  By induction the single-call theorems apply
+   along every history of such calls on the receiver. *)
+Theorem C06_inplace_calls_keep_guard_partial : forall ct s l a,
+  (elem_guard ct s l a KList = true ->
+     (forall idx v ins, plain_items ct s l a = true -> vscalar v = true ->
+        (idx = VMissing \/ exists i, idx = VInt i) ->
+        guard_kept ct s l a KList (HWithItem a) (mkh [v] true true idx ins None None [] None)) /\
+     (forall voi bi, nonref voi = true ->
+        guard_kept ct s l a KList (HWithoutItem a) (mkh [voi] true true VMissing false bi None [] None)) /\
+     (forall voi fo bi, proper_elems s l a = true -> fail_at s = None ->
+        nonref voi = true -> is_missing voi = false -> fo_ok fo -> by_value_ok ct s l a voi bi = true ->
+        guard_kept ct s l a KList (HTransformItem a) (mkh [voi] true true VMissing false bi None [] fo)) /\
+     (forall voi v bi, proper_elems s l a = true -> plain_items ct s l a = true ->
+        nonref voi = true -> is_missing voi = false -> nonref v = true ->
+        vscalar v || by_value_ok ct s l a voi bi = true ->
+        guard_kept ct s l a KList (HUpdateItem a) (mkh [voi; v] true true VMissing false bi None [] None))) /\
+  (elem_guard ct s l a KDict = true ->
+     (forall key v, plain_items ct s l a = true -> nonref key = true -> vscalar v = true ->
+        guard_kept ct s l a KDict (HWithItem a) (mkh [key; v] true true VMissing false None None [] None)) /\
+     (forall key, nonref key = true ->
+        guard_kept ct s l a KDict (HWithoutItem a) (mkh [key] true true VMissing false None None [] None)) /\
+     (forall key fo bi, dict_vals_proper s l a = true -> fail_at s = None -> nonref key = true -> fo_ok fo ->
+        guard_kept ct s l a KDict (HTransformItem a) (mkh [key] true true VMissing false bi None [] fo)) /\
+     (forall key v, dict_vals_proper s l a = true -> plain_items ct s l a = true ->
+        nonref key = true -> nonref v = true ->
+        guard_kept ct s l a KDict (HUpdateItem a) (mkh [key; v] true true VMissing false None None [] None))) /\
+  (elem_guard ct s l a KSet = true ->
+     (forall v, plain_items ct s l a = true -> vscalar v = true ->
+        guard_kept ct s l a KSet (HWithItem a) (mkh [v] true true VMissing false None None [] None)) /\
+     (forall voi, nonref voi = true ->
+        guard_kept ct s l a KSet (HWithoutItem a) (mkh [voi] true true VMissing false None None [] None)) /\
+     (forall voi fo bi, fail_at s = None -> vscalar voi = true -> fo_ok fo ->
+        guard_kept ct s l a KSet (HTransformItem a) (mkh [voi] true true VMissing false bi None [] fo)) /\
+     (forall voi v, plain_items ct s l a = true -> vscalar voi = true -> nonref v = true ->
+        guard_kept ct s l a KSet (HUpdateItem a) (mkh [voi; v] true true VMissing false None None [] None))).
+Proof.
+  intros ct s l a. split; [|split]; intro G; (split; [|split; [|split]]).
+  - intros idx v ins P Hv Hi. now apply with_item_list_keeps_guard.
+  - intros voi bi Hv. now apply without_item_list_keeps_guard.
+  - intros voi fo bi Pe Hfa Hv Hm Hfo Hbv. now apply transform_item_list_keeps_guard.
+  - intros voi v bi Pe P Hv Hm Hnv Hbv. now apply update_item_list_keeps_guard.
+  - intros key v P Hk Hv. now apply with_item_dict_keeps_guard.
+  - intros key Hk. now apply without_item_dict_keeps_guard.
+  - intros key fo bi Vp Hfa Hk Hfo. now apply transform_item_dict_keeps_guard.
+  - intros key v Vp P Hk Hnv. now apply update_item_dict_keeps_guard.
+  - intros v P Hv. now apply with_item_set_keeps_guard.
+  - intros voi Hv. now apply without_item_set_keeps_guard.
+  - intros voi fo bi Hfa Hv Hfo. now apply transform_item_set_keeps_guard.
+  - intros voi v P Hv Hnv. now apply update_item_set_keeps_guard.
+Qed.
+
+(* a history of three calls on the example receiver: each state is within the guard again *)
+Example C06_history_example :
+  let s1 := snd (run_helper ex_ct 0 (HWithoutItem 1) (mkh [VInt 0] true true VMissing false None None [] None) ex_state) in
+  let s2 := snd (run_helper ex_ct 0 (HWithItem 2) (mkh [VStr 8; VInt 3] true true VMissing false None None [] None) s1) in
+  let s3 := snd (run_helper ex_ct 0 (HTransformItem 1) (mkh [VInt (-1)] true true VMissing false (Some true) None [] (Some (FAddInt 1))) s2) in
+  elem_guard ex_ct s1 0 1 KList = true /\ elem_guard ex_ct s2 0 2 KDict = true /\ elem_guard ex_ct s3 0 1 KList = true /\
+  elem_guard ex_ct s3 0 3 KSet = true /\
+  absv (heap s3) (VRef 0) =
+    AInst 0 [(1, AList [AInt 1; AInt 1; AInt 1]); (2, ADict [(AStr 0, AInt 0); (AStr 7, AInt 1); (AStr 8, AInt 3)]);
+             (3, ASet [AInt 0; AInt 2])].
+Proof. vm_compute. repeat split. Qed.
+
 (* WHY by_value_ok IS NEEDED — a finding.  xs : List[int] holding [1, 0, 1, 0];
    transform_<item>(True, lambda x: x): True has the element type, so the target is addressed
    BY VALUE; True == 1 finds position 0.  "Replace by transformed value" (spec_change_item)
@@ -1106,6 +1174,8 @@ Print Assumptions C06_preparer_examples.
 Print Assumptions C06_elem_helpers_nested_refine_guarded_partial.
 Print Assumptions C06_with_item_preparer_nested_refine_guarded_partial.
 Print Assumptions C06_nested_guard_examples.
+Print Assumptions C06_inplace_calls_keep_guard_partial.
+Print Assumptions C06_history_example.
 Print Assumptions C06_by_value_transforms_argument_refuted.
 Print Assumptions C06_by_value_transforms_argument_set_refuted.
 Print Assumptions C06_examples.
